@@ -184,6 +184,29 @@ func genC11(tier, out string, sum *Summary) {
 			expect("raw-literal", "find_first("+lt+", '"+cp+"')", nil, refFind(want, cp, nil, nil, false))
 		}
 	}
+	// code points written as escapes: every boundary of the UTF-16 surrogate ranges and of the UTF-8 widths, as a
+	// quoted identifier and inside a JSON literal, counts as ONE code point and is the character itself
+	for _, cp := range []rune{0x10000, 0x103ff, 0x10400, 0x1f3ff, 0x1f600, 0x10fc00, 0x10ffff, 0xfffd, 0xffff, 0xe000, 0xd7ff, 0x7ff, 0x800, 0x7f, 0x80, 0xfc00} {
+		var esc string
+		if cp >= 0x10000 {
+			v := cp - 0x10000
+			esc = fmt.Sprintf(`\u%04x\u%04X`, 0xd800+(v>>10), 0xdc00+(v&0x3ff))
+		} else {
+			esc = fmt.Sprintf(`\u%04x`, cp)
+		}
+		ch := string(cp)
+		kd := map[string]any{ch: json.Number("7"), "a" + ch + "b": json.Number("8")}
+		expect("escapes", `"`+esc+`"`, kd, json.Number("7"))
+		expect("escapes", `"a`+esc+`b"`, kd, json.Number("8"))
+		expect("escapes", "`\""+esc+"\"`", nil, ch)
+		expect("escapes", "length(`\""+esc+"\"`)", nil, json.Number("1"))
+		expect("escapes", "`\""+esc+"\"` == '"+ch+"'", nil, true)
+		expect("escapes", "keys({\""+esc+"\": `1`})[0] == '"+ch+"'", map[string]any{}, true)
+		expect("escapes", "length(keys({\"x"+esc+"\": `1`})[0])", map[string]any{}, json.Number("2"))
+		expect("escapes", "`{\""+esc+"\": 1}`.\""+esc+"\"", nil, json.Number("1"))
+		expect("escapes", "reverse(`\"a"+esc+"\"`)", nil, ch+"a")
+		expect("escapes", "`\""+esc+esc+"\"`[1:]", nil, ch)
+	}
 	for i := 0; i < n; i++ {
 		s := cpString(8)
 		rs := []rune(s)
